@@ -1,8 +1,107 @@
-(* C01 — Parsing is total and safe.  Property theorems only (proofs in ParserProofs / ParserTheorems / LexProofs). *)
-From Coq Require Import ZArith NArith List Bool String.
-From ChaiV Require Import NumDefs Ast LexDefs ParserDefs ParserTheorems.
-From ChaiV.Gen Require Import G_IntLadder G_Keywords G_OperatorTable.
+(* C01 — Parsing is total and safe: a tree for the whole input, or eval_error.
+   Property theorems only; each is closed by `exact` of a lemma proved in ParserBodies / ParserTheorems (grammar layer, by one induction on
+   the call-depth fuel over all 28 mutually recursive grammar functions) on top of LexProofs / LexLitProofs / ParserLexProofs (lexical layer,
+   see Properties_Lex).  `parse A T K G` is ParserDefs.parse over the tables regenerated from /repo's working tree on every run
+   (tools/translate/t_OperatorTable.py, t_Keywords.py, t_IntLadder.py); that this model computes what the compiled parser computes is the
+   correspondence checked by tools/p_C01.py on every run.
 
-Theorem C01_tables_depth_limit : g_max_depth gtables_gen = max_parse_depth.
-Proof. exact max_depth_gen_ok. Qed.
-Print Assumptions C01_tables_depth_limit.
+   Outcomes of the model: Ok tree | Err reason line col (chaiscript::exception::eval_error) | Crash k | OutOfFuel, where Crash covers every way
+   the C++ could leave defined behaviour or the eval_error discipline: `--m_position` / `m_position -= n` before `begin` (OOB_dec), a raw read
+   `file_pos[i]`, `m_match_stack[i]`, `m_operators[i]`, `children[i]`, `front()` outside its container (OOB_read), std::out_of_range /
+   std::invalid_argument leaving the Char_Parser (Foreign_out_of_range, Foreign_invalid_argument), a node constructor's `assert` on the number of children or a throw inside the
+   Char_Parser destructor (Terminate). *)
+From Coq Require Import ZArith NArith List Bool String.
+From ChaiV Require Import NumDefs Ast LexDefs LexProofs LexLitProofs ParserLexProofs ParserDefs ParserProofs ParserBodies ParserTheorems.
+From ChaiV.Gen Require Import G_IntLadder G_Keywords G_OperatorTable.
+Import ListNotations.
+Local Open Scope string_scope.
+
+(* ---------------------------------------------------------------- C01_safe
+   For ALL byte strings and file names the parse never yields Crash: no read or decrement outside the input buffer (the unchecked operations are
+   operator--, operator-=, the raw reads of Symbol_/Keyword_; the grammar layer's own sites are the two `--m_position` of Dot_Fun_Array), no read
+   outside the match stack / operator table / a node's children, no node constructor assertion, no foreign exception, no terminate. *)
+Theorem C01_safe : forall (bytes : list N) (fname : string) (k : crash), parse A T K G bytes fname <> Crash k.
+Proof. exact parse_gen_no_crash. Qed.
+Print Assumptions C01_safe.
+
+(* ---------------------------------------------------------------- C01_terminates
+   With the stated fuel -- every loop runs at most (remaining bytes + 1) iterations, the chain of nested grammar-function calls is at most
+   parse_fuel = 2 * 512 + 8 long -- no input yields OutOfFuel: each continuing iteration of every loop of the grammar layer (Statements,
+   Class_Statements, Dot_Fun_Array, Operator, the comma lists, catch / case lists, `while (Eol())`) has consumed at least one byte, and a grammar
+   function that reports a match has consumed at least one byte.
+   NOTE (known finding chaiscript_parser.hpp:Container_Arg_List:exponential-backtracking): termination, not a polynomial bound.  The NUMBER of
+   grammar-function invocations is exponential in the nesting depth of inline containers (Value_Range, Map_Pair and Operator each re-parse the
+   same text after a roll-back: about 3^n for `[`*n 1 `]`*n), which the fuel does not measure: fuel bounds the depth of the call chain and the
+   length of each loop, not the total work. *)
+Theorem C01_terminates : forall (bytes : list N) (fname : string), parse A T K G bytes fname <> OutOfFuel.
+Proof. exact parse_gen_no_out_of_fuel. Qed.
+Print Assumptions C01_terminates.
+
+(* ---------------------------------------------------------------- C01_depth
+   (1) The parser's recursion is bounded on every input: a chain of nested grammar-function calls longer than parse_fuel = 2 * 512 + 8 never
+       occurs (this is C01_terminates read for the call-depth fuel of ParserDefs.P: OutOfFuel is what a longer chain would yield).
+   (2) Exceeding the limit is reported, never a Crash / OutOfFuel: EVERY grammar function that opens a Depth_Counter, entered with the counter
+       at the limit, yields Err "Maximum parse depth exceeded" at the current position, whatever the input.
+   (3) Concrete nestings, one per self-embedding construct (by computation): see the Examples below.
+   Scope: the parser's recursion only.  Operator / call / dot CHAINS are folded iteratively by build_match: parse depth stays constant while
+   the TREE becomes as deep as the chain is long (known finding chaiscript_parser.hpp:left-deep-chain: destroying / evaluating the tree recurses). *)
+Theorem C01_depth_bounded : parse_fuel = 2 * max_parse_depth + 8 /\ forall bytes fname, parse A T K G bytes fname <> OutOfFuel.
+Proof. exact (conj eq_refl parse_gen_no_out_of_fuel). Qed.
+Theorem C01_depth_reported : forall (f : nat) (nt : NT) (s : state pstate),
+  counted nt -> depth s = max_parse_depth ->
+  P A T K G (S f) nt s = Err "Maximum parse depth exceeded" (line (pos s)) (col (pos s)).
+Proof. exact (P_depth_limit A T K G). Qed.
+Print Assumptions C01_depth_reported.
+Theorem C01_depth_limit_is_the_sources : g_max_depth G = max_parse_depth /\ counted_gen = counted_model.
+Proof. exact (conj max_depth_gen_ok counted_gen_ok). Qed.
+
+Fixpoint rep (n : nat) (s : list N) : list N := match n with O => [] | S k => s ++ rep k s end.
+Definition outcome_of (b : list N) : string * Z * Z :=
+  match parse A T K G b "F" with
+  | Ok _ => ("OK", 0, 0)%Z | Err r l c => (r, l, c) | Crash _ => ("CRASH", 0, 0)%Z | OutOfFuel => ("OUTOFFUEL", 0, 0)%Z
+  end.
+Definition too_deep (b : list N) : bool := String.eqb (fst (fst (outcome_of b))) "Maximum parse depth exceeded".
+Definition accepted (b : list N) : bool := String.eqb (fst (fst (outcome_of b))) "OK".
+(* the deepest accepted nesting and the first rejected one, per construct *)
+Example C01_depth_parens : accepted (rep 33 (bos "(") ++ bos "1" ++ rep 33 (bos ")")) = true /\ too_deep (rep 34 (bos "(") ++ bos "1" ++ rep 34 (bos ")")) = true
+                           /\ too_deep (rep 600 (bos "(") ++ bos "1" ++ rep 600 (bos ")")) = true.
+Proof. vm_compute. auto. Qed.
+Example C01_depth_braces : too_deep (rep 600 (bos "{") ++ rep 600 (bos "}")) = true /\ accepted (rep 30 (bos "{") ++ rep 30 (bos "}")) = true.
+Proof. vm_compute. auto. Qed.
+Example C01_depth_brackets : too_deep (rep 600 (bos "[")) = true /\ accepted (rep 6 (bos "[") ++ bos "1" ++ rep 6 (bos "]")) = true.
+Proof. vm_compute. auto. Qed.
+Example C01_depth_prefix : too_deep (rep 600 (bos "-") ++ bos "x") = true /\ too_deep (rep 600 (bos "!") ++ bos "x") = true /\ accepted (rep 40 (bos "!") ++ bos "x") = true.
+Proof. vm_compute. auto. Qed.
+Example C01_depth_lambdas : too_deep (rep 100 (bos "fun(){ ") ++ bos "1" ++ rep 100 (bos " }")) = true /\ accepted (rep 5 (bos "fun(){ ") ++ bos "1" ++ rep 5 (bos " }")) = true.
+Proof. vm_compute. auto. Qed.
+Example C01_depth_ternaries : too_deep (rep 100 (bos "a ? ") ++ bos "b" ++ rep 100 (bos " : c")) = true /\ accepted (rep 5 (bos "a ? ") ++ bos "b" ++ rep 5 (bos " : c")) = true.
+Proof. vm_compute. auto. Qed.
+Example C01_depth_equations : too_deep (rep 600 (bos "x = ") ++ bos "1") = true.
+Proof. vm_compute. auto. Qed.
+
+(* ---------------------------------------------------------------- C01_accounts
+   FULL STATEMENT (the repaired parse_internal):
+     parse bytes fname = Ok t ->  (kind t = File /\ the final cursor is at the end of the input) \/ (kind t = Noop /\ trivia_only bytes = true)
+   with ParserDefs.trivia_only the independently written automaton (spaces, tabs, line ends, comments, annotations, shebang line).
+   PROVED (`_partial`): a normal result is a File node or THE location-less Noop node; in both cases the final cursor is at the end of the
+   input, the buffer is the caller's, line/col are right (wf_pos) and the depth counter is back at 0 -- i.e. "Unparsed input" is raised
+   whenever anything is left over, on both branches of parse_internal.
+   MISSING for the full statement: the lemma "a grammar function that reports NO match has moved the cursor over white space and comments
+   only" (for all 28 functions, by the same induction as P_ok) together with "SkipWS consumes trivia only", which turn `Noop` into
+   `trivia_only bytes`.  The direction is covered by the oracle of tools/p_C01.py on every run (root Noop => the extracted trivia_only holds). *)
+Theorem C01_accounts_partial : forall (bytes : list N) (fname : string) (t : pnode) (s' : state pstate),
+  parse_full A T K G bytes fname = Ok (t, s') ->
+  buf (pos s') = bytes /\ wf_pos (pos s') /\ idx (pos s') = List.length bytes /\ depth s' = 0%nat /\ (pn_kind t = Ast.KFile \/ t = noop_node).
+Proof. exact parse_gen_root. Qed.
+Print Assumptions C01_accounts_partial.
+(* the hypotheses are satisfiable by non-trivial inputs: a program, and an input of trivia only *)
+Example C01_accounts_file : exists t s', parse_full A T K G (bos "x = 1 // c") "F" = Ok (t, s') /\ pn_kind t = Ast.KFile /\ idx (pos s') = 10%nat.
+Proof. vm_compute. eexists. eexists. split; [reflexivity|]. split; reflexivity. Qed.
+Example C01_accounts_noop : exists s', parse_full A T K G (bos " /* c */ // d") "F" = Ok (noop_node, s') /\ trivia_only (bos " /* c */ // d") = true.
+Proof. vm_compute. eexists. split; reflexivity. Qed.
+Example C01_unparsed_input : parse A T K G (bos ")") "F" = Err "Unparsed input" 1 1.
+Proof. vm_compute. reflexivity. Qed.
+
+(* ---------------------------------------------------------------- the regenerated tables satisfy the side conditions the proofs need *)
+Theorem C01_tables_ok : tables_ok G = true /\ (forall c, in_alpha (a_id A) c = true -> in_alpha (a_keyword A) c = true).
+Proof. exact (conj tables_gen_ok id_sub_keyword_gen). Qed.
